@@ -64,7 +64,7 @@ def install(world, pm_mod):
     pm_mod.signal = type('signal', (), {'signal': staticmethod(fake_signal), 'SIGINT': _signal.SIGINT, 'SIGTERM': _signal.SIGTERM, 'SIGHUP': _signal.SIGHUP})
     pm_mod.current_process = lambda: FakeCP
 
-def run_history(nworkers, max_fails, history):
+def run_history(nworkers, max_fails, history, via_run_worker=False):
     import taskiq.cli.worker.process_manager as pm_mod
     from taskiq.cli.worker.args import WorkerArgs
     world = World(); install(world, pm_mod)
@@ -91,10 +91,21 @@ def run_history(nworkers, max_fails, history):
         elif sig == 'TERM': world.handlers[_signal.SIGTERM](_signal.SIGTERM, None)
         elif sig == 'INT@scan': world.int_at_scan = True
     pm_mod.sleep = fake_sleep
-    args = WorkerArgs(broker='x:y', modules=[], workers=nworkers, max_fails=max_fails)
-    mgr = pm_mod.ProcessManager(args, lambda args: None)
-    status = 'running'; raised = None
-    try: status = mgr.start()
+    args = WorkerArgs(broker='x:y', modules=[], workers=nworkers, max_fails=max_fails, configure_logging=False)
+    status = 'running'; raised = None; mgr = None
+    if via_run_worker:          # through the CLI entry point taskiq.cli.worker.run.run_worker: it builds the manager, starts it and returns its status
+        import taskiq.cli.worker.run as run_mod
+        real_pm = pm_mod.ProcessManager
+        def make(*a, **kw):
+            nonlocal mgr
+            mgr = real_pm(*a, **kw); return mgr
+        saved_pm, saved_obs = run_mod.ProcessManager, run_mod.Observer; run_mod.ProcessManager = make; run_mod.Observer = None
+    else: mgr = pm_mod.ProcessManager(args, lambda args: None)
+    try:
+        if via_run_worker:
+            try: status = run_mod.run_worker(args)
+            finally: run_mod.ProcessManager, run_mod.Observer = saved_pm, saved_obs
+        else: status = mgr.start()
     except StopHistory: status = 'running'
     except BaseException as e: raised = f"{type(e).__name__}: {e}"
     pr = world.problems
@@ -141,6 +152,13 @@ def run(sc):
             for hist in itertools.product(events, repeat=3):
                 pr = run_history(nworkers, max_fails, list(hist) + [((), None), ((), None)]); n += 1
                 if pr and len(fails) < 200: fails.append({'key': f"workers={nworkers} max_fails={max_fails} history={hist}", 'config': {'workers': nworkers, 'max_fails': max_fails, 'ticks': [list(map(str, h)) for h in hist]}, 'failed_clauses': pr[:5]})
+    for nworkers in (1, 2):          # the same through run_worker (shorter histories)
+        subsets = [()] + [(i,) for i in range(nworkers)]
+        events = [(d, s) for d in subsets for s in (None, 'HUP', 'INT')]
+        for max_fails in (-1, 1, 2):
+            for hist in itertools.product(events, repeat=2):
+                pr = run_history(nworkers, max_fails, list(hist) + [((), None), ((), None)], via_run_worker=True); n += 1
+                if pr and len(fails) < 200: fails.append({'key': f"run_worker workers={nworkers} max_fails={max_fails} history={hist}", 'config': {'entry': 'run_worker', 'workers': nworkers, 'max_fails': max_fails, 'ticks': [list(map(str, h)) for h in hist]}, 'failed_clauses': pr[:5]})
     return {'reproduced': bool(fails), 'runs': n, 'n_failures': len(fails), 'failures': fails[:400], 'bound': 'worker counts 1..2, all event histories of 3 ticks (+2 quiet ticks), max_fails in {-1,1,2}'}
 
 if __name__ == '__main__':
